@@ -3,6 +3,9 @@ import Jap.Core.ValidatePos
 import Jap.Lemmas.Validate
 import Jap.Gen.LenientBrackets
 import Jap.Gen.MetaKeyFilter
+import Jap.Lemmas.ValidateOpt
+import Jap.Lemmas.ValidateArgv
+import Jap.Gen.PositionalOptionals
 /-!
 # C06 — unknown keys are never silently ignored; required keys are enforced
 
@@ -537,5 +540,268 @@ example : stableLevels bigSpec bigCfg ["s1"] = true
 example : (removeAt "a" [.key "d"] (.dict (bigCfg ++ [("zz", .dict [])]))).map
         (fun v => match v with | .dict k => validate ld0 bigSpec k | _ => .ok ())
       = some (.error (.required [.key "d", .key "a"] 0)) := rfl
+
+/-! ## `Optional[Dataclass]` arguments (`Node.optGroup`)
+
+A mapping given for an argument typed `Optional[Dataclass]` (one `ActionTypeHint`, no group) is validated by the per-class parser of
+the dataclass: `adapt_typehints`, branch "Dataclass-like" — `get_class_parser(typehint, sub_add_kwargs)` then `parse_object`.
+`reachO` is `reach` walking through such values too (positions below them are positions of that parser). -/
+
+/-- the check of such a value IS the check of a parser of its own (`check_values` + `check_required`, keys relative to it) -/
+theorem C06_optdc_is_parser (ld : String → Val) (pre : Path) (cut : Nat) (item req : Bool) (fs : Fields) (kvs : KV)
+    (hl : leaflessKVs kvs = false) :
+    chkVal ld pre cut item (.optGroup req fs) (.dict kvs) = chkVal ld pre cut true (.group true fs) (.dict kvs) :=
+  chkVal_optGroup_dict ld pre cut item req fs kvs hl
+
+/-- **Counterexample (open finding C06-optdc-empty-mapping).**  FULL STATEMENT "a dataclass given for an `Optional[Dataclass]` argument has
+    all its required fields" is false when the mapping holds no leaf: `{}` (and `{zz: {}}`) given for `opt: Optional[D]`, `D` with the
+    required field `x`, never reaches the namespace — accepted, the argument silently keeps its default `None`; only a REQUIRED argument
+    notices (it is reported as missing). -/
+theorem C06_optdc_empty_counterexample :
+    validate ld0 [("opt", .optGroup false [("x", .leaf .int true none)])] [("opt", .dict [])] = .ok ()
+    ∧ validate ld0 [("opt", .optGroup false [("x", .leaf .int true none)])] [("opt", .dict [("zz", .dict [])])] = .ok ()
+    ∧ validate ld0 [("opt", .optGroup false [("x", .leaf .int true none)])] [("opt", .dict [("x", .null)])]
+        = .error (.required [.key "opt", .key "x"] 1)
+    ∧ validate ld0 [("opt", .optGroup true [("x", .leaf .int true none)])] [("opt", .dict [])] = .error (.required [.key "opt"] 0) := by
+  refine ⟨rfl, rfl, rfl, rfl⟩
+
+/-- **C06_no_unknown through `Optional[Dataclass]` values.**  In an accepted configuration no key path that carries a leaf is
+    undefined at its position — the positions now include the fields of a dataclass given for an `Optional[Dataclass]` argument,
+    nested dataclasses in it, `Optional[Dataclass]` fields of those, ... to any depth, and any mix with groups, sections, `init_args`
+    and list items. -/
+theorem C06_no_unknown_optdc (ld : String → Val) (fs : Fields) (kvs : KV) (path : Path) (w : Val)
+    (h : validate ld fs kvs = .ok ()) (hg : getPath (.dict kvs) path = some w) (hl : leafless w = false) :
+    reachO (root fs kvs) path ≠ .undefinedKey :=
+  reachO_ne_undefined path (root_okAt h) hg hl
+
+/-- **C06_required through `Optional[Dataclass]` values.**  Every required key of every parser level of an accepted configuration is
+    set — `p0` may now lead through `Optional[Dataclass]` values: the parser reached is the top-level one, a per-class parser of
+    `init_args` / a list item, or the parser of the dataclass given for an `Optional[Dataclass]` argument (`q` is that argument's position). -/
+theorem C06_required_optdc (ld : String → Val) (fs : Fields) (kvs : KV) (p0 : Path) (q : Pos) (w : Bool) (fs1 : Fields) (kvs1 : KV)
+    (ks : List String) (fs2 : Fields) (kvs2 : KV) (r : String) (n : Node)
+    (h : validate ld fs kvs = .ok ())
+    (hp : reachO (root fs kvs) p0 = .pos q) (hq : liftO q = ⟨true, .group w fs1, .dict kvs1⟩)
+    (hl : levelIn fs1 kvs1 ks = some (fs2, kvs2))
+    (ha : assoc r fs2 = some n) (hn : isRequiredNode n = true) :
+    ∃ v, getPath (.dict kvs) (p0 ++ (ks ++ [r]).map .key) = some v ∧ v ≠ .null := by
+  obtain ⟨hq0, hpath⟩ := okAt_reachO p0 (root_okAt h) hp
+  have hq1 : OkAt ld ⟨true, .group w fs1, .dict kvs1⟩ := by rw [← hq]; exact okAt_liftO hq0
+  obtain ⟨pre, cut, hreq⟩ := okAt_parser_req hq1
+  have hlev := reqFields_levelIn ks hreq hl
+  obtain ⟨v, hv, hnn⟩ := reqFields_required hlev ha hn
+  refine ⟨v, ?_, hnn⟩
+  have hroot : (root fs kvs).val = .dict kvs := rfl
+  have hval : q.val = .dict kvs1 := by rw [← liftO_val q, hq]
+  rw [← hroot, hpath, hval]
+  simp only [List.map_append, List.map_cons, List.map_nil]
+  rw [getPath_append]
+  rcases levelIn_getPath ks hl with h0 | h1
+  · subst h0; simp [assoc] at hv
+  · rw [h1]
+    simp [getPath_dict_cons, hv, getPath_nil]
+
+private def optSpec : Fields :=
+  [("n", .leaf .int false (some (.int 0))),
+   ("g", .group true [("k", .leaf .int false (some (.int 1))),
+      ("opt", .optGroup false [("x", .leaf .int true none), ("y", .leaf .int false (some (.int 2))),
+                               ("inner", .optGroup false [("a", .leaf .int true none)])])]),
+   ("ro", .optGroup true [("x", .leaf .int true none)])]
+
+private def optCfg : KV :=
+  [("g", .dict [("opt", .dict [("x", .int 1), ("y", .int 7), ("inner", .dict [("a", .int 3)])])]), ("ro", .dict [("x", .int 5)])]
+
+/-- `Optional[Dataclass]` in a group and at the top level, nested: accepted; `None` accepted unless required; a required field of the
+    dataclass missing / a foreign field / a non-mapping: the error of the dataclass' parser, positioned relative to it -/
+example : validate ld0 optSpec optCfg = .ok () := rfl
+example : validate ld0 optSpec [("g", .dict [("opt", .null)]), ("ro", .dict [("x", .int 5)])] = .ok () := rfl
+example : validate ld0 optSpec [("g", .dict [("opt", .dict [("y", .int 7)])]), ("ro", .dict [("x", .int 5)])]
+    = .error (.required [.key "g", .key "opt", .key "x"] 2) := rfl
+example : validate ld0 optSpec [("g", .dict [("opt", .dict [("x", .int 1), ("zz9", .int 7)])]), ("ro", .dict [("x", .int 5)])]
+    = .error (.unknown [.key "g", .key "opt", .key "zz9"] 2) := rfl
+example : validate ld0 optSpec [("g", .dict [("opt", .dict [("x", .int 1), ("inner", .dict [("zz9", .int 3)])])]), ("ro", .dict [("x", .int 5)])]
+    = .error (.unknown [.key "g", .key "opt", .key "inner", .key "zz9"] 3) := rfl
+example : validate ld0 optSpec [("g", .dict [("opt", .int 3)]), ("ro", .dict [("x", .int 5)])] = .error (.type [.key "g", .key "opt"] 0) := rfl
+example : validate ld0 optSpec [("ro", .null)] = .error (.required [.key "ro"] 0) := rfl
+example : validate ld0 optSpec [] = .error (.required [.key "ro"] 0) := rfl
+/-- non-vacuity of the two theorems: the nested position is reached by `reachO` (and not by `reach`, for which it is data) -/
+example : reachO (root optSpec optCfg) [.key "g", .key "opt", .key "inner", .key "a"] = .pos ⟨false, .leaf .int true none, .int 3⟩
+    ∧ (match reach (root optSpec optCfg) [.key "g", .key "opt", .key "inner"] with | .data => true | _ => false) = true := ⟨rfl, rfl⟩
+example : liftO ⟨false, .optGroup false [("a", .leaf .int true none)], .dict [("a", .int 3)]⟩
+    = ⟨true, .group true [("a", .leaf .int true none)], .dict [("a", .int 3)]⟩ := rfl
+example : (flatten "" "" optSpec).map (fun a => (a.dest, a.optKeys, a.required))
+    = [("n", ["n"], false), ("g", ["g"], false), ("g.k", ["g.k"], false), ("g.opt", ["g.opt"], false), ("ro", ["ro"], true)] := rfl
+
+/-! ## command-line tokens no action consumed (`_positional_optionals`, the end of `parse_args`)
+
+`posLoop` transcribes the loop of `ArgumentParser._positional_optionals`; `leftoverVerdict` the step of `parse_args` after it
+(`if unk: self.error("Unrecognized arguments: ...")`). -/
+
+/-- the source the model transcribes, regenerated on every run: the loop of `_positional_optionals` (one `unk.pop(0)` per optional
+    action, `break` on a missing positional / when nothing is left, THE REST IS RETURNED), which actions take part, when the mechanism
+    is on, the leftover step of `parse_args`, the dataclass branch of `adapt_typehints` (the previous value reaches the per-class parser
+    in a NEW dict: `{**sub_add_kwargs, 'default': prev_val}` — never written into the dict stored on the action), and the two closures
+    of `validate` -/
+theorem C06_leftover_source :
+    Jap.Gen.PositionalOptionals.positionalOptionals =
+      ["0: if len(unk) == 0 or not supports_optionals_as_positionals(self):", "1: return (cfg, unk)",
+       "0: for action in get_optionals_as_positionals_actions(self, include_positionals=True):",
+       "1: if action.option_strings == []:", "2: if cfg.get(action.dest) is None:", "3: break", "2: continue",
+       "1: cfg[action.dest] = self._check_value_key(action, unk.pop(0), action.dest, cfg)",
+       "1: if len(unk) == 0:", "2: break", "0: return (cfg, unk)"]
+    ∧ Jap.Gen.PositionalOptionals.eligibleActions =
+      ["0: actions = []", "0: for action in filter_default_actions(parser._actions):",
+       "1: if isinstance(action, (_ActionConfigLoad, ActionConfigFile, ShtabAction)):", "2: continue",
+       "1: if ActionTypeHint.is_subclass_typehint(action, all_subtypes=False):", "2: continue",
+       "1: if action.nargs not in {1, None}:", "2: continue",
+       "1: if not include_positionals and action.option_strings == []:", "2: continue",
+       "1: actions.append(action)", "0: return actions"]
+    ∧ Jap.Gen.PositionalOptionals.supports =
+      ["return get_parsing_setting('parse_optionals_as_positionals') and (not parser._subcommands_action) and (not getattr(parser, '_inner_parser', False))"]
+    ∧ Jap.Gen.PositionalOptionals.parseArgsLeftover =
+      ["0: cfg, unk = self.parse_known_args(args=args, namespace=cfg)", "0: cfg, unk = self._positional_optionals(cfg, unk)",
+       "0: if unk:", "1: self.error(f'Unrecognized arguments: {' '.join(unk)}')"]
+    ∧ Jap.Gen.PositionalOptionals.dataclassBranch.take 4 =
+      ["0: if isinstance(prev_val, (dict, Namespace)):", "1: assert isinstance(sub_add_kwargs, dict)",
+       "1: sub_add_kwargs = {**sub_add_kwargs, 'default': prev_val}",
+       "0: parser = ActionTypeHint.get_class_parser(typehint, sub_add_kwargs=sub_add_kwargs)"]
+    ∧ Jap.Gen.PositionalOptionals.dataclassBranch.drop 4 =
+      ["0: if instantiate_classes:", "1: init_args = parser.instantiate_classes(val)", "1: return typehint(**init_args)",
+       "0: if serialize:", "1: val = load_value(parser.dump(val, **dump_kwargs.get()))", "0: else:",
+       "1: if isinstance(val, (dict, Namespace)):",
+       "2: if is_subclass_spec(val) and get_import_path(typehint) == val.get('class_path'):", "3: val = val.get('init_args')",
+       "2: try:", "3: val = parser.parse_object(val, defaults=sub_defaults.get() or list_item)", "2: except ArgumentError:",
+       "3: raise_unexpected_value(f'Problem with given {typehint} settings: {ex}', exception=ex)", "1: else:",
+       "2: if isinstance(val, NestedArg):", "3: prev_val = prev_val if isinstance(prev_val, Namespace) else None",
+       "3: try:", "4: val = parser.parse_args([f'--{val.key}={val.val}'], namespace=prev_val)", "3: except ArgumentError:",
+       "4: raise_unexpected_value(f'Problem with given {typehint} settings: {ex}', exception=ex)", "2: else:",
+       "3: raise_unexpected_value(f'Type {typehint} expects a dict or Namespace', val)"]
+    ∧ Jap.Gen.PositionalOptionals.checkRequired =
+      ["0: for reqkey in parser.required_args:", "1: try:", "2: val = cfg[reqkey]", "2: if val is None:", "3: raise TypeError",
+       "1: except (KeyError, TypeError):",
+       "2: raise TypeError(f'Key \"{prefix}{reqkey}\" is required but not included in config object or its value is None.') from ex",
+       "0: subcommand, subparser = _ActionSubCommands.get_subcommand(parser, cfg, fail_no_subcommand=False)",
+       "0: if subcommand is not None and subparser is not None:",
+       "1: check_required(cfg.get(subcommand), subparser, prefix + subcommand + '.')"]
+    ∧ Jap.Gen.PositionalOptionals.checkValues.length = 29
+    ∧ Jap.Gen.PositionalOptionals.checkValues.take 6 =
+      ["0: sorted_keys = {k: _find_action(self, k) for k in cfg.get_sorted_keys()}", "0: for key, action in sorted_keys.items():",
+       "1: parent_action = None", "1: if action is None:", "2: if _is_branch_key(self, key):", "3: continue"]
+    ∧ Jap.Gen.PositionalOptionals.checkValues.drop 11 =
+      ["1: val = cfg[key]", "1: if action is not None:", "2: if val is None and skip_none or lenient_check.get():", "3: continue",
+       "2: try:", "3: self._check_value_key(action, val, key, ccfg)", "2: except TypeError:",
+       "3: if not (val == {} and ActionTypeHint.is_subclass_typehint(action) and (key not in self.required_args)):", "4: raise ex",
+       "1: else:", "2: if isinstance(parent_action, _ActionSubCommands) and '.' in key:",
+       "3: subcommand, subkey = split_key_root(key)",
+       "3: raise NSKeyError(f\"Subcommand '{subcommand}' does not accept nested key '{subkey}'\")",
+       "2: group_key = next((g for g in self.groups if key.startswith(g + '.')), None)", "2: if group_key:",
+       "3: subkey = key[len(group_key) + 1:]",
+       "3: raise NSKeyError(f\"Group '{group_key}' does not accept nested key '{subkey}'\")",
+       "2: raise NSKeyError(f\"Key '{key}' is not expected\")"] := by
+  refine ⟨rfl, rfl, rfl, rfl, rfl, rfl, rfl, rfl, rfl, rfl⟩
+
+/-- **C06_tokens_conserved.**  Every leftover token is either handed to an action or still in the list that is reported:
+    assigned tokens followed by the rest ARE the tokens that came in — none dropped, none duplicated, order kept; for every action list,
+    every token list, the mechanism on or off. -/
+theorem C06_tokens_conserved (enabled : Bool) (acts : List PAct) (unk : List String) :
+    (positionalOptionals enabled acts unk).1.map (·.2) ++ (positionalOptionals enabled acts unk).2 = unk := by
+  unfold positionalOptionals
+  by_cases h : (unk.isEmpty || !enabled) = true
+  · simp [h]
+  · simp only [h]; exact posLoop_conserve acts unk
+
+/-- **C06_tokens_one_action_each.**  The actions that receive a token are optional actions of the parser, each at most once, in the
+    order they were added (a sublist of the optionals). -/
+theorem C06_tokens_one_action_each (enabled : Bool) (acts : List PAct) (unk : List String) :
+    List.Sublist ((positionalOptionals enabled acts unk).1.map (·.1)) (optionalDests acts) := by
+  unfold positionalOptionals
+  by_cases h : (unk.isEmpty || !enabled) = true
+  · simp [h]
+  · simp only [h]; exact posLoop_sublist acts unk
+
+/-- **C06_leftover_accept_iff.**  The leftover step of `parse_args` lets a command line through only when EVERY leftover token was
+    handed to an action (the assigned tokens are exactly the leftover tokens, in order); otherwise the error lists the rest, which is
+    a non-empty tail of the tokens. -/
+theorem C06_leftover_accept_iff (enabled : Bool) (acts : List PAct) (unk : List String) :
+    (∀ asg, leftoverVerdict enabled acts unk = .ok asg → asg.map (·.2) = unk)
+    ∧ (∀ rest, leftoverVerdict enabled acts unk = .error rest →
+        rest ≠ [] ∧ ∃ n, n ≤ (optionalDests acts).length ∧ rest = unk.drop n) := by
+  have hc := C06_tokens_conserved enabled acts unk
+  have hs := (C06_tokens_one_action_each enabled acts unk).length_le
+  unfold leftoverVerdict
+  constructor
+  · intro asg h
+    by_cases he : (positionalOptionals enabled acts unk).2.isEmpty = true
+    · simp only [he, if_true, Except.ok.injEq] at h
+      subst h
+      have : (positionalOptionals enabled acts unk).2 = [] := by simpa using he
+      rw [this] at hc
+      simpa using hc
+    · simp [he] at h
+  · intro rest h
+    by_cases he : (positionalOptionals enabled acts unk).2.isEmpty = true
+    · simp [he] at h
+    · simp only [he, Bool.false_eq_true, if_false, Except.error.injEq] at h
+      subst h
+      refine ⟨by simpa using he, (positionalOptionals enabled acts unk).1.length, by simpa using hs, ?_⟩
+      have : unk.drop (positionalOptionals enabled acts unk).1.length
+          = ((positionalOptionals enabled acts unk).1.map (·.2) ++ (positionalOptionals enabled acts unk).2).drop
+              ((positionalOptionals enabled acts unk).1.map (·.2)).length := by rw [hc]; simp
+      rw [this, List.drop_left]
+
+/-- **C06_too_many_tokens.**  More leftover tokens than the parser has optional actions: rejected, and every token beyond the
+    optionals' count is in the reported rest. -/
+theorem C06_too_many_tokens (enabled : Bool) (acts : List PAct) (unk : List String)
+    (h : (optionalDests acts).length < unk.length) :
+    ∃ rest, leftoverVerdict enabled acts unk = .error rest ∧ unk.drop (optionalDests acts).length <:+ rest := by
+  cases hv : leftoverVerdict enabled acts unk with
+  | ok asg =>
+    exfalso
+    have h1 := (C06_leftover_accept_iff enabled acts unk).1 asg hv
+    have hs := (C06_tokens_one_action_each enabled acts unk).length_le
+    unfold leftoverVerdict at hv
+    by_cases he : (positionalOptionals enabled acts unk).2.isEmpty = true
+    · simp only [he, if_true, Except.ok.injEq] at hv
+      subst hv
+      have : unk.length = (positionalOptionals enabled acts unk).1.length := by
+        have := congrArg List.length h1
+        simpa using this.symm
+      simp only [List.length_map] at hs
+      omega
+    · simp [he] at hv
+  | error rest =>
+    obtain ⟨_, n, hn, hr⟩ := (C06_leftover_accept_iff enabled acts unk).2 rest hv
+    exact ⟨rest, rfl, by rw [hr]; exact List.drop_suffix_drop_left unk hn⟩
+
+/-- **C06_tokens_in_order.**  With the mechanism on and no positional missing, the i-th leftover token goes to the i-th optional action
+    (order of addition) and what is beyond the optionals is the rest; with the mechanism off, or a positional missing first, every token
+    is left (and reported). -/
+theorem C06_tokens_in_order (acts : List PAct) (unk : List String)
+    (hall : ∀ a ∈ acts, a.positional = true → a.hasValue = true) :
+    positionalOptionals true acts unk = ((optionalDests acts).zip unk, unk.drop (optionalDests acts).length) := by
+  unfold positionalOptionals
+  cases unk with
+  | nil => simp
+  | cons t u => simp only [List.isEmpty_cons, Bool.not_true, Bool.or_self, Bool.false_eq_true, if_false]; exact posLoop_exact acts hall (t :: u)
+
+theorem C06_tokens_off (acts : List PAct) (unk : List String) : positionalOptionals false acts unk = ([], unk) := by
+  simp [positionalOptionals]
+
+theorem C06_tokens_missing_positional (a : PAct) (r : List PAct) (unk : List String) (hp : a.positional = true) (hv : a.hasValue = false) :
+    positionalOptionals true (a :: r) unk = ([], unk) := by
+  unfold positionalOptionals
+  cases unk with
+  | nil => simp
+  | cons t u => simp only [List.isEmpty_cons, Bool.not_true, Bool.or_self, Bool.false_eq_true, if_false]; exact posLoop_missing a r (t :: u) hp hv
+
+private def pacts : List PAct := [⟨"p1", true, true⟩, ⟨"o1", false, false⟩, ⟨"o2", false, false⟩]
+/-- non-vacuity, computed: two optionals, 0..4 extra tokens -/
+example : leftoverVerdict true pacts ["7"] = .ok [("o1", "7")] := rfl
+example : leftoverVerdict true pacts ["7", "opt"] = .ok [("o1", "7"), ("o2", "opt")] := rfl
+example : leftoverVerdict true pacts ["7", "opt", "LEFT1"] = .error ["LEFT1"] := rfl
+example : leftoverVerdict true pacts ["7", "opt", "LEFT1", "LEFT2"] = .error ["LEFT1", "LEFT2"] := rfl
+example : leftoverVerdict false pacts ["7"] = .error ["7"] := rfl
+example : leftoverVerdict true [⟨"p1", true, false⟩, ⟨"o1", false, false⟩] ["7"] = .error ["7"] := rfl
+example : (optionalDests pacts).length < ["7", "opt", "LEFT1"].length := by decide
+example : ∀ a ∈ pacts, a.positional = true → a.hasValue = true := by decide
 
 end Jap.Props.C06
